@@ -17,7 +17,7 @@ func closedOK(err error) bool {
 
 func c10Run(w *W) {
 	kind := allKinds[w.Choose(simrt.SShape, len(allKinds))]
-	tran := []string{"msg", "inproc", "sim", "simipc", "tcp", "ipc", "tls+tcp"}[w.Choose(simrt.SShape, 7)]
+	tran := w.simFallback([]string{"msg", "inproc", "sim", "simipc", "tcp", "ipc", "tls+tcp"}[w.Choose(simrt.SShape, 7)])
 	npeers := w.Choose(simrt.SShape, 3)
 	what := []string{"socket", "socket", "context", "dialer", "listener", "pipe"}[w.Choose(simrt.SShape, 6)]
 	stream := tran != "msg" && tran != "inproc"
